@@ -42,6 +42,8 @@ def correspondence(ctx, batch):
         cmps = common.cmps_choice(rng)
         if i % 8 == 0:
             samples, cmps = gen.gen_chain_samples(rng), []
+        elif i % 8 == 4:
+            samples = gen.gen_python_equal_samples(rng)
         elif i % 8 == 3:
             samples = gen.gen_object_members(rng)
         elif i % 8 == 2:
@@ -133,6 +135,8 @@ def falsify(ctx):
         cmps = common.cmps_choice(rng)
         if r > .92:
             samples, cmps = gen.gen_chain_samples(rng), []
+        elif r > .66 and r <= .72:
+            samples = gen.gen_python_equal_samples(rng)
         elif r > .72 and r <= .78:
             samples, cmps = gen.gen_object_members(rng), common.cmps_choice(rng)
         elif r > .78 and r <= .84:
